@@ -697,7 +697,8 @@ impl<'a> Hist<'a> {
                     _ => "null",
                 };
                 type Raw = unsafe extern "C" fn(*const api::C2paSignerInfo) -> *mut api::C2paSigner;
-                let fp: Raw = std::mem::transmute(api::c2pa_signer_from_info as for<'x> unsafe extern "C" fn(&'x api::C2paSignerInfo) -> *mut api::C2paSigner);
+                // (through an untyped pointer: the parameter is `&C2paSignerInfo` or `*const C2paSignerInfo` depending on the tree; same ABI)
+                let fp: Raw = std::mem::transmute(api::c2pa_signer_from_info as *const ());
                 if key == "null" {
                     P!(fp(std::ptr::null()))
                 } else {
